@@ -4,6 +4,9 @@ import numpy as np
 import core
 from core import Fraction, frac, rat, ratlist
 
+MODELLED = ["evo/core/sync.py:matching_time_indices", "evo/core/sync.py:associate_trajectories",
+            "evo/core/trajectory.py:PoseTrajectory3D.reduce_to_ids", "evo/core/trajectory.py:PosePath3D.reduce_to_ids"]
+
 RULE = ("cases = (stamps1, stamps2, max_diff, offset); exact-grid stream (dyadic stamps, differences exactly equal to "
         "max_diff, exact ties, contested counterparts) compared exactly; random stream (epoch-sized stamps, jitter, gaps, "
         "disjoint ranges, both length orderings) compared when the model's decision margin exceeds the float slack; "
@@ -13,8 +16,8 @@ RULE = ("cases = (stamps1, stamps2, max_diff, offset); exact-grid stream (dyadic
 def gen_cases(ctx):
     r = ctx.rng
     n_grid = 1500 if not ctx.thorough else 6000
-    n_rand = 200 if not ctx.thorough else 600
-    maxlen = 100 if not ctx.thorough else 1000
+    n_rand = 200 if not ctx.thorough else 400
+    maxlen = 100 if not ctx.thorough else 600
     # corpus of minimised past failures first
     yield {"kind": "grid", "s1": [0.0, 0.1], "s2": [0.05, 5.0, 6.0], "md": 0.06, "off": 0.0, "corpus": "F8"}
     yield {"kind": "grid", "s1": [0.0, 0.125], "s2": [0.0625, 5.0, 6.0], "md": 0.0625, "off": 0.0, "corpus": "F8-exact"}
@@ -170,10 +173,19 @@ def judge(ctx, case, impl, outs):
     ctx.record(case, nontrivial)
 
 
+def scale_of(case):
+    """common denominator of all (dyadic) numbers of the case: distances are then exact Python ints"""
+    den = 1
+    for x in case["s1"] + case["s2"] + [case["off"], case["md"]]:
+        den = max(den, frac(x).denominator)
+    return den
+
+
 def driving(case):
-    """(short stamps, long stamps, offset as applied to the long list, second_longer)"""
-    s1, s2 = [frac(x) for x in case["s1"]], [frac(x) for x in case["s2"]]
-    off = frac(case["off"])
+    """(short stamps, long stamps, offset as applied to the long list, second_longer), scaled to ints"""
+    sc = scale_of(case)
+    s1, s2 = [int(frac(x) * sc) for x in case["s1"]], [int(frac(x) * sc) for x in case["s2"]]
+    off = int(frac(case["off"]) * sc)
     if len(s2) > len(s1):
         return s1, s2, off, True
     return s2, s1, -off, False
@@ -183,7 +195,8 @@ _DC = {}
 
 
 def dists(case):
-    k = (tuple(case["s1"]), tuple(case["s2"]), case["off"])
+    """scaled integer distances |long + off - short| (rows: poses of the shorter trajectory)"""
+    k = (tuple(case["s1"]), tuple(case["s2"]), case["off"], case["md"])
     if k not in _DC:
         _DC.clear()
         short, long_, off, _ = driving(case)
@@ -192,7 +205,8 @@ def dists(case):
 
 
 def assoc_margin_ok(case, sl):
-    md = frac(case["md"])
+    sc = scale_of(case)
+    md, sl = frac(case["md"]) * sc, sl * sc
     for row in dists(case):
         srt = sorted(row)
         if abs(srt[0] - md) <= sl:
@@ -203,21 +217,22 @@ def assoc_margin_ok(case, sl):
 
 
 def has_contest(case):
-    md = frac(case["md"])
+    md = frac(case["md"]) * scale_of(case)
     near = [min(range(len(row)), key=lambda j: (row[j], j)) for row in dists(case)]
     ok = [j for j, row in zip(near, dists(case)) if row[j] <= md]
     return len(ok) != len(set(ok))
 
 
 def has_exact_threshold(case):
-    md = frac(case["md"])
+    md = frac(case["md"]) * scale_of(case)
     return any(min(row) == md for row in dists(case))
 
 
 def oracle(ctx, case, impl, sl):
-    md = frac(case["md"])
-    off = frac(case["off"])
-    s1, s2 = [frac(x) for x in case["s1"]], [frac(x) for x in case["s2"]]
+    sc = scale_of(case)
+    md, sl = frac(case["md"]) * sc, sl * sc
+    off = int(frac(case["off"]) * sc)
+    s1, s2 = [int(frac(x) * sc) for x in case["s1"]], [int(frac(x) * sc) for x in case["s2"]]
     if not impl["match_inputs_unchanged"] or not impl["assoc_inputs_unchanged"]:
         ctx.fail(case, "inputs-unmodified", "an input array/trajectory was modified")
     short, long_, offl, snd_longer = driving(case)
@@ -257,7 +272,7 @@ def oracle(ctx, case, impl, sl):
             return
         d = abs(s1[i1] - (s2[i2] + off))
         if d > md + sl:
-            ctx.fail(case, "within-max_diff", f"pair {k} ({i1},{i2}) |t1-(t2+off)|={float(d)} > {float(md)}")
+            ctx.fail(case, "within-max_diff", f"pair {k} ({i1},{i2}) |t1-(t2+off)|={float(d / sc)} > {float(md / sc)}")
         i, j = (i1, i2) if snd_longer else (i2, i1)
         if D[i][j] > min(D[i]) + sl:
             ctx.fail(case, "nearest-counterpart", f"pair {k}: short pose {i} paired with {j}, nearest is {near[i]}")
@@ -295,6 +310,7 @@ def evaluate(ctx, cases):
 
 def check(ctx):
     lean = core.lean_side(ctx.prop, ctx.tier)
+    core.drift(ctx, MODELLED)
     cases = list(gen_cases(ctx))
     evaluate(ctx, cases)
     core.shrink_all(ctx, shrink, evaluate)
